@@ -17,4 +17,8 @@ CLAIMED = {
         "text": "Index-level model of the truncating decimal parser, the float path and format_decimal (slice bounds, usize underflow and the fixed buffer are explicit Panic outcomes). Proved for all inputs: no panic for every u8 precision / i8 scale / text and every i128; every stored value (string and float path) satisfies |v| < 10^precision; copied digits are ASCII digits, at most `precision`. PARTIAL: exactness against the numeral denotation (C15_full) and the format/parse round trip are not yet theorems; they are evaluated as the Coq specification oracle (denote/value_scaled) on every implementation output and by a BigDecimal referee, over all 38 precisions x a scale grid x a numeral family plus random numerals up to 260 digits.",
         "note": "Only the truncating parser variants (the ones the builder constructs) are modelled. Float path takes trunc(v*10^scale) from the driver (documented lossy step).",
     },
+    "C14": {
+        "text": "Durations: the in-crate ISO-8601 span parser, to_arrow_duration and the span formatter are modelled byte for byte; proved for all texts and units: a stored duration equals trunc(span*unit) with the sign applied afterwards, interval-style spans refused, result within i64 (C14_duration_exact). Calendar: civil<->day-number bijection over all of Z (era sweep by vm_compute + era-shift lemmas); times and timestamps: the stored integer splits back into the same civil date / second of day with finer digits dropped (trunc for times, floor for instants). PARTIAL: the text-level parsing and printing of dates/times/timestamps is chrono's (external) - the model's canonical strings and acceptance conditions are validated against the crate on every run (field-structured inputs rendered in the accepted spellings; extremes of every storage width), chrono and jiff parse every produced string back as referees; the format/parse round trip over text is not a theorem.",
+        "note": "chrono parsing/formatting/arithmetic is modelled, not verified. Leap seconds inside timestamps are not generated (chrono maps 23:59:60 differently per unit; recorded as an observation in DESIGN.md).",
+    },
 }
